@@ -13,6 +13,8 @@ kind, for every shape (`*_eq`), the translated `linear_rings` to the model's; th
 (`Type.from_wkt(shape.to_wkt())` and `parse_wkt(shape.to_wkt())` give the shape back) are restated for the translated
 writers (`src_readAs_roundtrip`, `src_parseWkt_roundtrip`).
 -/
+set_option linter.unusedSimpArgs false
+
 namespace GV.C13Src
 open GV GV.Wkt
 
@@ -319,11 +321,12 @@ def wedgeOutline (v : Src.Wkt.RingView F) : List (Coord F) :=
 theorem ringBoundingCoords_wedge (v : Src.Wkt.RingView F) (hw : ¬ (v.amin = 0 ∧ v.amax = 360)) (ho : v.outerB ≠ []) :
     Src.Wkt.ringBoundingCoords io v = .ok (wedgeOutline v) := by
   obtain ⟨a, ha, hga⟩ := getIdx_zero v.outerB ho
+  have e1 : ((0 : Rat) = v.amin) = (v.amin = 0) := propext eq_comm
+  have e2 : ((360 : Rat) = v.amax) = (v.amax = 360) := propext eq_comm
   unfold Src.Wkt.ringBoundingCoords
-  by_cases h1 : v.amin = 0
-  · have h2 : v.amax ≠ 360 := fun h2 => hw ⟨h1, h2⟩
-    simp [h1, h2, hga, wedgeOutline, ha]
-  · simp [h1, hga, wedgeOutline, ha]
+  by_cases h1 : v.amin = 0 <;> by_cases h2 : v.amax = 360
+  · exact absurd ⟨h1, h2⟩ hw
+  all_goals simp [e1, e2, h1, h2, hga, wedgeOutline, ha]
 
 theorem ringBoundingCoords_full (v : Src.Wkt.RingView F) (h0 : v.amin = 0) (h360 : v.amax = 360) :
     Src.Wkt.ringBoundingCoords io v = .ok v.outerB := by
@@ -336,21 +339,21 @@ theorem ringBoundingCoords_full (v : Src.Wkt.RingView F) (h0 : v.amin = 0) (h360
 theorem ringToWkt_wedge (v : Src.Wkt.RingView F) (hw : ¬ (v.amin = 0 ∧ v.amax = 360)) (ho : v.outerB ≠ []) :
     Src.Wkt.ringToWkt io v = .ok (render (toWktBounding io (wedgeOutline v) v.holes)) := by
   obtain ⟨a, ha, hga⟩ := getIdx_zero v.outerB ho
+  have e1 : ((0 : Rat) = v.amin) = (v.amin = 0) := propext eq_comm
+  have e2 : ((360 : Rat) = v.amax) = (v.amax = 360) := propext eq_comm
   have hsuper : Src.Wkt.ringSuperToWkt io v = .ok (render (toWktBounding io (wedgeOutline v) v.holes)) := by
     have hlr : Src.Wkt.ringLinearRings io v = .ok ((Poly.mk (wedgeOutline v) v.holes).linearRings) := by
       unfold Src.Wkt.ringLinearRings
-      by_cases h1 : v.amin = 0
-      · have h2 : v.amax ≠ 360 := fun h2 => hw ⟨h1, h2⟩
-        simp [h1, h2, hga, wedgeOutline, ha, Poly.linearRings]
-      · simp [h1, hga, wedgeOutline, ha, Poly.linearRings]
+      by_cases h1 : v.amin = 0 <;> by_cases h2 : v.amax = 360
+      · exact absurd ⟨h1, h2⟩ hw
+      all_goals simp [e1, e2, h1, h2, hga, wedgeOutline, ha, Poly.linearRings]
     unfold Src.Wkt.ringSuperToWkt
     simp only [hlr, polygonText]
     rfl
   unfold Src.Wkt.ringToWkt
-  by_cases h1 : v.amin = 0
-  · have h2 : v.amax ≠ 360 := fun h2 => hw ⟨h1, h2⟩
-    simp [h1, h2, hsuper]
-  · simp [h1, hsuper]
+  by_cases h1 : v.amin = 0 <;> by_cases h2 : v.amax = 360
+  · exact absurd ⟨h1, h2⟩ hw
+  all_goals simp [e1, e2, h1, h2, hsuper]
 
 end Writers
 
